@@ -71,3 +71,15 @@ pub fn src_next<I: Iterator>(it: &mut I) -> (r: Option<I::Item>)
 pub fn into_iter_model<I: IntoIterator>(i: I) -> (r: I::IntoIter)
     ensures src_items(r) == into_items(i)
 { i.into_iter() }
+
+// rule R25: a closure `|p, _| f(p)` that only forwards to a captured `FnMut` (Verus has no closures capturing `&mut`)
+// is replaced by this adapter.  TRUSTED: the adapter behaves like `f` on its first argument.
+#[verifier::external_body]
+pub fn adapt_key_pred<P, V, F: FnMut(&P) -> bool>(f: F) -> (g: impl FnMut(&P, &V) -> bool)
+    ensures
+        forall|q: &P, v: &V| #[trigger] g.requires((q, v)) == f.requires((q,)),
+        forall|q: &P, v: &V, b: bool| #[trigger] g.ensures((q, v), b) == f.ensures((q,), b),
+{
+    let mut f = f;
+    move |q: &P, _v: &V| f(q)
+}
